@@ -231,7 +231,7 @@ def simulate_states(cfgname, module, num, depth, seed, timeout=300):
     from . import tlaval
     w = scratch('tlcsim')
     try:
-        rc, out = run_tlc(w, module, read_cfg(cfgname), args=['-simulate', 'file=%s/beh,num=%d' % (w, num), '-depth', str(depth), '-seed', str(seed)],
+        rc, out = run_tlc(w, module, read_cfg(cfgname).replace('VIEW View', ''), args=['-simulate', 'file=%s/beh,num=%d' % (w, num), '-depth', str(depth), '-seed', str(seed)],
                           workers=1, timeout=timeout)
         files = sorted(glob.glob(os.path.join(w, 'beh_*')), key=lambda p: [int(x) for x in re.findall(r'\d+', os.path.basename(p))])
         if not files:
